@@ -656,8 +656,6 @@ Qed.
 (* ------------------------------------------------------------------------------------------------ *)
 (* from the machine to the place-and-route model: the whole chain                                    *)
 
-Definition machine_busy (cs : chip_state) (p : Z) : Prop :=
-  0 <= p < Z.min (cs_cores cs) 18 /\ nth (Z.to_nat p) (cs_states cs) idle_state <> idle_state.
 
 Lemma nth_firstn_lt : forall {A} (l : list A) n i d, (i < n)%nat -> nth i (firstn n l) d = nth i l d.
 Proof.
@@ -676,25 +674,14 @@ Proof.
   - rewrite nth_firstn_lt by lia. assumption.
 Qed.
 
-Theorem probe_end_to_end : forall rd route answers w h si,
-  0 <= w < 256 -> 0 <= h < 256 -> routes_valid route -> reads_dims rd w h -> reads_p2p rd route ->
+Lemma end_to_end_of_table : forall route answers w h si,
   answers_valid answers -> (exists c, has_route route w h c) ->
-  system_info rd (info_of_machine answers) = Ok si ->
-  let m := build_machine si in
-  let cons := build_core_constraints si in
-  (forall c, pm_has_chip m c = true <-> (has_route route w h c /\ exists cs, answers c = Some cs)) /\
-  (forall c cs, has_route route w h c -> answers c = Some cs ->
-     si_get si c = Some (truth_info cs) /\
-     pm_get m c = Ok (cs_cores cs, cs_sdram cs, cs_sram cs) /\
-     (forall l, In l [0; 1; 2; 3; 4; 5] -> (pm_has_link m c l = true <-> Z.testbit (cs_linkmask cs) l = true)) /\
-     cassoc c (target_lengths si) = Some (cs_rtr cs) /\
-     (forall r, In r (ranges_on c cons) -> 0 <= fst r < snd r) /\
-     (forall p, (cover_count p (ranges_on c cons) <= 1)%nat) /\
-     (forall p, (exists r, In r (ranges_on c cons) /\ fst r <= p < snd r) <-> machine_busy cs p)) /\
-  (forall k, In k cons -> snd k = None \/ exists c, snd k = Some c /\ pm_has_chip m c = true).
+  system_info_of_table (info_of_machine answers) (p2p_truth route w h) = Ok si ->
+  model_matches_machine route answers w h si.
 Proof.
-  intros rd route answers w h si Hw Hh Hr Hd Hp Hv Hex Hsi m cons.
-  destruct (system_info_exact rd route answers w h Hw Hh Hr Hd Hp Hv Hex) as (si' & Hsi' & Hchips & Hbound & _ & _).
+  intros route answers w h si Hv Hex Hsi. unfold model_matches_machine.
+  set (m := build_machine si). set (cons := build_core_constraints si).
+  destruct (system_info_of_truth route answers w h Hv Hex) as (si' & Hsi' & Hchips & Hbound & _ & _).
   rewrite Hsi in Hsi'. inversion Hsi'; subst si'. clear Hsi'.
   assert (Hnd : NoDup (map fst (si_chips si))) by (rewrite Hchips; apply NoDup_live_chips).
   assert (Hwf : si_wf si).
@@ -728,6 +715,17 @@ Proof.
     + apply in_flat_map in Hk. destruct Hk as ([c ci] & Hin & Hk). apply in_map_iff in Hk. destruct Hk as (r & <- & _).
       right. exists c. split; [reflexivity|]. rewrite Hmc. apply si_has_get. exists ci.
       apply In_cassoc; assumption.
+Qed.
+
+Theorem probe_end_to_end : forall rd route answers w h si,
+  0 <= w < 256 -> 0 <= h < 256 -> routes_valid route -> reads_dims rd w h -> reads_p2p rd route ->
+  answers_valid answers -> (exists c, has_route route w h c) ->
+  system_info rd (info_of_machine answers) = Ok si ->
+  model_matches_machine route answers w h si.
+Proof.
+  intros rd route answers w h si Hw Hh Hr Hd Hp Hv Hex Hsi.
+  unfold system_info in Hsi. rewrite (p2p_roundtrip rd route w h) in Hsi by assumption. cbn [bind] in Hsi.
+  eapply end_to_end_of_table; eassumption.
 Qed.
 
 (* ------------------------------------------------------------------------------------------------ *)
